@@ -1458,11 +1458,20 @@ def run_env(case: dict) -> Tuple[List[str], dict]:
     try:
         with GraphTap() as tap, CalcTap() as ctap, live:
             env = None
-            if n_proxies == 1:
-                env = PrimaiteGymEnv(env_config=cfg)
-                game = env.game
-            else:  # several RL agents (or none): the game loop itself, every RL agent given a random action of its map
-                game = G.PrimaiteGame.from_config(cfg)
+            try:
+                if n_proxies == 1:
+                    env = PrimaiteGymEnv(env_config=cfg)
+                    game = env.game
+                else:  # several RL agents (or none): the game loop itself, every RL agent given a random action of its map
+                    game = G.PrimaiteGame.from_config(cfg)
+            except Exception as e:  # a shipped / generated scenario that does not load: reported, not a crash of the check
+                import traceback
+                in_update[0] = False
+                capture["observed"] = {"agents": first_agents, "steps": [], "exact": True}
+                capture["bounds"] = {}
+                capture["step_problems"] = [f"scenario does not load: {case.get('source')}: {type(e).__name__}: {e} | "
+                                            + traceback.format_exc()[-600:].replace("\n", " | ")]
+                return [f"raised other:{type(e).__name__}", "no-game"], capture
             graph = tap.graphs[0]
             capture["graph"] = {k: list(v) for k, v in graph.items()}
             for ref, ins in declared_graph(agents).items():
@@ -1485,9 +1494,15 @@ def run_env(case: dict) -> Tuple[List[str], dict]:
                         for ag in game.rl_agents.values():
                             ag.store_action(arng.below(len(ag.action_manager.action_map)))
                         game.step()
-                except Exception:
+                except Exception as e:
                     if in_update[0]:
-                        raise  # inside update_agents: the reward layer itself (never seen on a real state dictionary)
+                        # inside update_agents on a REAL state dictionary: the reward layer (or the observation update it shares
+                        # access_from_nested_dict with) raised where the model computes a value — a failing input, not a crash
+                        in_update[0] = False
+                        import traceback
+                        check._bad(f"update_agents raised: step {k + 1} of {case.get('source')}: {type(e).__name__}: {e} on the real "
+                                   f"describe_state() dictionary | " + traceback.format_exc()[-600:].replace("\n", " | "))
+                        break
                     # an exception of the simulator / an agent, outside the reward layer (C01's subject): the run ends here and
                     # what was observed so far is compared; the traceback goes into the evidence notes
                     import traceback
